@@ -180,14 +180,19 @@ func (q *UdpTaskQueue) convoy() {
 				continue
 			}
 
+			verifYield("convoy.afterIdleCheck")
+
 			// CAS refs to lock out new acquireQueue and avoid time.Sleep
 			if !q.refs.CompareAndSwap(0, -1000000) {
 				q.safeTimerReset(timer)
 				continue
 			}
 
+			verifYield("convoy.afterClaim")
+
 			// Try to delete from pool using CAS-like semantics via sync.Map
 			if q.p.tryDeleteQueue(q.key, q) {
+				verifYield("convoy.beforeRecycle")
 				q.p.queueChPool.Put(q.ch)
 				return
 			}
@@ -225,7 +230,9 @@ func (p *UdpTaskPool) EmitTask(key UdpFlowKey, task UdpTask) {
 	if q == nil {
 		return
 	}
+	verifYield("emit.afterAcquire")
 	q.enqueue(task)
+	verifYield("emit.afterEnqueue")
 	q.refs.Add(-1)
 }
 
@@ -239,6 +246,7 @@ func (p *UdpTaskPool) acquireQueue(key UdpFlowKey) *UdpTaskQueue {
 		q := v.(*UdpTaskQueue)
 		for {
 			refs := q.refs.Load()
+			verifYield("acquire.afterLoad")
 			if refs < 0 {
 				goto createNew
 			}
